@@ -33,6 +33,79 @@ func e1Specs(prop, tier string) []engines.E1Spec {
 			{Name: "A-small/none/rs3", Cfg: rig.Config{RecordSize: 3}, Alphabet: engines.SmallA(), Depth: 3, Oracles: or},
 		}
 	}
+	switch prop {
+	case "C04":
+		if tier == "quick" {
+			out := []engines.E1Spec{}
+			for _, rs := range []int{1, 3, 20} {
+				out = append(out, engines.E1Spec{Name: fmt.Sprintf("B/none/rs%d", rs), Cfg: rig.Config{RecordSize: rs}, Alphabet: engines.AlphabetB(false), Depth: 2, Oracles: or, Level: "archive"})
+			}
+			return out
+		}
+		out := []engines.E1Spec{}
+		for _, rs := range []int{1, 2, 3, 7, 20} {
+			out = append(out, engines.E1Spec{Name: fmt.Sprintf("B-full/none/rs%d", rs), Cfg: rig.Config{RecordSize: rs}, Alphabet: engines.AlphabetB(true), Depth: 3, Oracles: or, Level: "archive"})
+		}
+		out = append(out, engines.E1Spec{Name: "A-small/none/rs3", Cfg: rig.Config{RecordSize: 3}, Alphabet: engines.SmallA(), Depth: 3, Oracles: or})
+		return out
+	case "C07":
+		if tier == "quick" {
+			return []engines.E1Spec{
+				{Name: "A-small/none/rs20", Cfg: cfgNone, Alphabet: engines.SmallA(), Depth: 2, Oracles: or},
+				{Name: "B/none/rs3", Cfg: rig.Config{RecordSize: 3}, Alphabet: engines.AlphabetB(false), Depth: 2, Oracles: or, Level: "archive"},
+			}
+		}
+		return []engines.E1Spec{
+			{Name: "A-small/none/rs20", Cfg: cfgNone, Alphabet: engines.SmallA(), Depth: 3, Oracles: or, AllJ: true},
+			{Name: "B-full/none/rs3", Cfg: rig.Config{RecordSize: 3}, Alphabet: engines.AlphabetB(true), Depth: 3, Oracles: or, Level: "archive", AllJ: true},
+		}
+	case "C14":
+		type init struct {
+			spec string
+			l    int
+		}
+		inits := []init{{"hello", 5}, {"", 0}}
+		flagSets := []int{os.O_RDONLY, os.O_WRONLY, os.O_RDWR, os.O_RDWR | os.O_APPEND, os.O_RDWR | os.O_TRUNC}
+		caches := []string{"memory", "file"}
+		depth := 2
+		if tier != "quick" {
+			depth = 4
+			inits = append(inits, init{"T1100", 1100})
+		}
+		out := []engines.E1Spec{}
+		for _, in := range inits {
+			for _, fl := range flagSets {
+				for _, wc := range caches {
+					d := depth
+					if in.l > 16 && d > 3 {
+						d = 3
+					}
+					out = append(out, engines.E1Spec{Name: fmt.Sprintf("H/%q/%s/wc=%s", in.spec, ops.FlagString(fl), wc), Cfg: rig.Config{RecordSize: 1, WriteCache: wc}, Level: "handle",
+						HInit: in.spec, HFlags: fl, Alphabet: engines.HandleAlphabet(in.l, fl&os.O_APPEND != 0), Depth: d, Oracles: or})
+				}
+			}
+		}
+		for _, wc := range caches {
+			out = append(out, engines.E1Spec{Name: "H/missing/WRONLY|CREATE/wc=" + wc, Cfg: rig.Config{RecordSize: 1, WriteCache: wc}, Level: "handle",
+				HInit: "<missing>", HFlags: os.O_WRONLY | os.O_CREATE, Alphabet: engines.HandleAlphabet(0, false), Depth: depth, Oracles: or})
+		}
+		if tier != "quick" {
+			out = append(out, engines.E1Spec{Name: "H/hello/RDWR/gz+age+minisign", Cfg: rig.Config{RecordSize: 20, Compression: "gzip", Encryption: "age", Signature: "minisign"}, Level: "handle",
+				HInit: "hello", HFlags: os.O_RDWR, Alphabet: engines.HandleAlphabet(5, false), Depth: 3, Oracles: or})
+		}
+		return out
+	case "C12":
+		names := engines.WNames
+		out := []engines.E1Spec{}
+		max, depth := 2, 1
+		if tier != "quick" {
+			max, depth = 3, 2
+		}
+		for i, setup := range engines.WSetups(names, max) {
+			out = append(out, engines.E1Spec{Name: fmt.Sprintf("W%d/none/rs20", i), Cfg: cfgNone, Setup: setup, Alphabet: engines.WAlphabet(names), Depth: depth, Oracles: or})
+		}
+		return out
+	}
 	return nil
 }
 
